@@ -57,11 +57,12 @@ func safely(f func() M) (res M) {
 }
 
 type compiled struct {
-	src  string // set when the convenience API is to be exercised too (C01, plain variant)
-	expr *eval.Expr
-	cc   *eval.Config
-	log  *Log
-	rec  M
+	effAPIs bool   // record the effects of EvalBool and TryEval too (C03)
+	src     string // set when the convenience API is to be exercised too (C01, plain variant)
+	expr    *eval.Expr
+	cc      *eval.Config
+	log     *Log
+	rec     M
 }
 
 // compileVariant compiles src under the variant and records the outcome.
@@ -220,6 +221,35 @@ func (c *compiled) runEval(env Env, idx int, reps int, withBool bool) M {
 		repRecs = []interface{}{}
 	}
 	run["reps"] = repRecs
+	if c.effAPIs {
+		// the other evaluation entry points: EvalBool, and TryEval with everything available
+		c.log.reset()
+		f := &Fetcher{Vals: env, Log: c.log}
+		run["bres2"] = safely(func() M {
+			v, err := c.expr.EvalBool(&eval.Ctx{VariableFetcher: f})
+			if err != nil {
+				return te(err)
+			}
+			return tv(v)
+		})
+		drain(c.expr)
+		eff := []interface{}{}
+		for _, e := range c.log.Eff {
+			eff = append(eff, e)
+		}
+		run["beff"] = eff
+		c.log.reset()
+		run["tres"] = safely(func() M {
+			v, err := c.expr.TryEval(&eval.Ctx{VariableFetcher: &Fetcher{Vals: env, Log: c.log}})
+			return outcome(v, err)
+		})
+		drain(c.expr)
+		teff := []interface{}{}
+		for _, e := range c.log.Eff {
+			teff = append(teff, e)
+		}
+		run["teff"] = teff
+	}
 	if withBool {
 		c.log.reset()
 		f := &Fetcher{Vals: env, Log: c.log, Quiet: true}
@@ -422,6 +452,7 @@ func famEval() {
 		for vi, o := range vs {
 			wantProg := *fProgEvery > 0 && (id*31+vi)%*fProgEvery == 0
 			c := compileVariant(src, o, wantProg)
+			c.effAPIs = prop == "C03"
 			if prop == "C01" && vi == 0 && !strings.Contains(src, "K") {
 				c.src = src // (ConstantMap constants are not available through the convenience API)
 			}
